@@ -17,7 +17,7 @@ RULE = (
     "erase-below, deferred auto-wrap) and compared with the stacked model contents; the same sequences on a plain "
     "output; the same enumeration one op shorter on an output indented by 3 (sections inherit the indentation, so the "
     "exactly-width line wraps only because of it); plus Hypothesis sequences up to 40 ops with widths 5..20 and "
-    "indentation 0/1/3/4. Non-trivial: a write to a section that is not "
+    "indentation 0/1/3/4 and writes that the verbosity gate suppresses. Non-trivial: a write to a section that is not "
     "the last one, a wrapped line, or a partial clear. Enumerated sequences are distinct by construction."
 )
 ASSUMPTIONS = [
@@ -117,6 +117,12 @@ class World(object):
             self.appended.extend(new)
             if s < len(self.sections) - 1 or any(len(l.expandtabs(8)) > self.width for l in new):
                 self.nt = True
+        elif k == "wv":
+            # a write that the verbosity gate suppresses (flag VERBOSE on an output of normal verbosity):
+            # nothing is shown and nothing is remembered
+            text = op[2] if op[2] not in TEXTS else TEXTS[op[2]]
+            sec.write_line(text, 1)
+            self.nt = True
         elif k == "overwrite":
             text = op[2] if op[2] not in TEXTS else TEXTS[op[2]]
             sec.overwrite(text)
@@ -248,6 +254,7 @@ def op_st():
         st.just(("create",)),
         st.tuples(st.just("write"), sec, texts), st.tuples(st.just("write"), sec, texts),
         st.tuples(st.just("overwrite"), sec, texts),
+        st.tuples(st.just("wv"), sec, texts),
         st.tuples(st.just("clear"), sec),
         st.tuples(st.just("cleark"), sec, st.integers(1, 4)),
     )
